@@ -2,5 +2,5 @@ From Coq Require Import List NArith.
 From Tink Require Import XBase Untrusted Secrets.
 Require Import ExtrOcamlBasic.
 Extraction "m.ml" xb_add xb_mul xb_div_eucl
-  decode_keyset decode_encrypted read read_no_secrets handle_no_secrets read_encrypted any_outside_c13
-  info_of_handle info_of_keyset proto_of_handle write_no_secrets write_encrypted_binary encrypted_ct ser_keyset.
+  decode_keyset decode_encrypted read read_no_secrets handle_no_secrets read_encrypted any_unmodelled
+  info_of_handle info_of_keyset proto_of_handle write_no_secrets write_encrypted_binary encrypted_ct ser_keyset writer_history.
